@@ -36,11 +36,16 @@ def expression_set(tier):
     twins += [("exists", "tags", "x"), ("exists", "fields", "x"), ("exists", "tags", "k"), ("exists", "fields", "k"),
               ("cmp", "tags", ("x",), "==", None), ("cmp", "fields", ("x",), "==", None), ("cmp", "tags", ("k",), "!=", None), ("cmp", "fields", ("k",), "!=", None),
               ("noop", "tags", ("k",)), ("noop", "fields", ("k",))]
+    # a compiled pattern with its own flags next to the same pattern text without them
+    import re as _re
+
+    twins += [("regex", "tags", ("k",), "matches", ("RE", "^b$", _re.I), 0), ("regex", "tags", ("k",), "matches", "^b$", 0),
+              ("regex", "tags", ("k",), "matches", ("RE", "^b$", 0), 0), ("regex", "tags", ("k",), "matches", "^b$", _re.I)]
     A = A + [t for t in twins if t not in A]
     E = list(A) + [("not", a) for a in A]
     sub = quick_atoms(A)[: (18 if tier == "quick" else 34)]
     lits = sub if tier == "quick" else sub + [("not", a) for a in sub[:12]]
-    lits = lits + naive[:3] + twins[:7] + twins[-23:-20] + twins[-14:-12] + twins[-10:-6]
+    lits = lits + naive[:3] + twins[:7] + twins[-27:-24] + twins[-18:-16] + twins[-14:-10] + twins[-4:]
     for a in lits:
         for b in lits:
             E.append(("and", a, b))
